@@ -43,39 +43,38 @@ package pq
 //@
 //@ func (pqHeap).Swap
 //@   requires 0 <= i && i < len(h.a) && 0 <= j && j < len(h.a)
-//@   requires distinct(h) && idxOK(h)
+//@   requires (h.setIndex != nil ==> distinct(h)) && idxOK(h)
 //@   ensures h.a[i] == old(h.a[j]) && h.a[j] == old(h.a[i])
 //@   ensures forall k int :: 0 <= k && k < len(h.a) && k != i && k != j ==> h.a[k] == old(h.a[k])
 //@   ensures h.setIndex == nil ==> reported == old(reported)
 //@   ensures h.setIndex != nil ==> reported == update(update(old(reported), old(h.a[j]), i), old(h.a[i]), j)
-//@   ensures distinct(h) && idxOK(h)
+//@   ensures (h.setIndex != nil ==> distinct(h)) && idxOK(h)
 //@   modifies elems(h.a)
 //@   props C20
 //@
 //@ func (*pqHeap).Push
 //@   requires h != nil
-//@   requires distinct(*h) && idxOK(*h)
-//@   requires forall k int :: 0 <= k && k < len(h.a) ==> h.a[k] != x
+//@   requires (h.setIndex != nil ==> distinct(*h) && (forall k int :: 0 <= k && k < len(h.a) ==> h.a[k] != x)) && idxOK(*h)
 //@   ensures len(h.a) == old(len(h.a)) + 1
 //@   ensures h.a[len(h.a)-1] == x
 //@   ensures forall k int :: 0 <= k && k < old(len(h.a)) ==> h.a[k] == old(h.a[k])
 //@   ensures h.setIndex != nil ==> reported == update(old(reported), x, old(len(h.a)))
 //@   ensures h.setIndex == nil ==> reported == old(reported)
 //@   ensures h.less == old(h.less) && h.setIndex == old(h.setIndex)
-//@   ensures distinct(*h) && idxOK(*h)
+//@   ensures (h.setIndex != nil ==> distinct(*h)) && idxOK(*h)
 //@   ensures ref(h.a) == old(ref(h.a)) || fresh(h.a)
 //@   modifies h.a, elems(h.a)
 //@   props C20
 //@
 //@ func (*pqHeap).Pop
 //@   requires h != nil && len(h.a) > 0
-//@   requires distinct(*h) && idxOK(*h)
+//@   requires (h.setIndex != nil ==> distinct(*h)) && idxOK(*h)
 //@   ensures result == old(h.a[len(h.a)-1])
 //@   ensures len(h.a) == old(len(h.a)) - 1
 //@   ensures forall k int :: 0 <= k && k < len(h.a) ==> h.a[k] == old(h.a[k])
 //@   ensures reported == old(reported)
 //@   ensures h.less == old(h.less) && h.setIndex == old(h.setIndex)
-//@   ensures distinct(*h) && idxOK(*h)
+//@   ensures (h.setIndex != nil ==> distinct(*h)) && idxOK(*h)
 //@   ensures ref(h.a) == old(ref(h.a))
 //@   modifies h.a
 //@   props C20
@@ -92,64 +91,180 @@ package pq
 //@   modifies nothing
 //@   props C20
 //@
-//@ // ---- container/heap: ASSUMED contracts (standard library, not verified).
-//@ // They say what heap.Push/Pop/Fix/Remove establish when the five
-//@ // heap.Interface methods behave as proved above. hp is the *pqHeap inside
-//@ // the interface value.
+//@ // ---- container/heap: VERIFIED here against the behaviour of pqHeap's five
+//@ // methods (the dynamic dispatch of heap.Interface on *pqHeap goes to those
+//@ // methods: the `iface` contracts below repeat their proved contracts).
+//@ // hpOf(h) is the *pqHeap inside the interface value.
+//@ // swo(f): the comparator is a strict weak order - the hypothesis under which
+//@ // "a minimal element" is meaningful (assumed of the comparator the client
+//@ // supplies; everything else holds for any comparator).
 //@ spec hpOf(h any) *pqHeap = unbox(h, "*pqHeap")
-//@ spec heapOK(h pqHeap) bool = forall k int :: 1 <= k && k < len(h.a) ==> !lessOf(h.less, h.a[k], h.a[(k-1)/2])
-//@ spec wfHeap(h pqHeap) bool = h.less != nil && (h.setIndex != nil ==> distinct(h)) && idxOK(h) && heapOK(h)
+//@ spec okAt(h pqHeap, k int) bool = !lessOf(h.less, h.a[k], h.a[(k-1)/2])
 //@ spec member(h pqHeap, x any) bool = exists k int :: 0 <= k && k < len(h.a) && h.a[k] == x
+//@ spec swo(f func) bool = (forall x any, y any :: lessOf(f, x, y) ==> !lessOf(f, y, x)) && (forall x any, y any, z any :: lessOf(f, x, y) && lessOf(f, y, z) ==> lessOf(f, x, z)) && (forall x any, y any, z any :: !lessOf(f, x, y) && !lessOf(f, y, z) ==> !lessOf(f, x, z))
+//@ spec okRep(h pqHeap) bool = h.less != nil && (h.setIndex != nil ==> distinct(h)) && idxOK(h)
+//@ spec wfHeap(h pqHeap) bool = okRep(h) && heapOK(h)
 //@
+//@ func iface container/heap.Interface.Len
+//@   requires typeis(recv, "*pqHeap") && hpOf(recv) != nil
+//@   ensures result == len(hpOf(recv).a)
+//@   pure
+//@ func iface container/heap.Interface.Less
+//@   requires typeis(recv, "*pqHeap") && hpOf(recv) != nil && hpOf(recv).less != nil && 0 <= i && i < len(hpOf(recv).a) && 0 <= j && j < len(hpOf(recv).a)
+//@   ensures result == lessOf(hpOf(recv).less, hpOf(recv).a[i], hpOf(recv).a[j])
+//@   pure
+//@ func iface container/heap.Interface.Swap
+//@   requires typeis(recv, "*pqHeap") && hpOf(recv) != nil && 0 <= i && i < len(hpOf(recv).a) && 0 <= j && j < len(hpOf(recv).a)
+//@   requires (hpOf(recv).setIndex != nil ==> distinct(*hpOf(recv))) && idxOK(*hpOf(recv))
+//@   ensures hpOf(recv).a[i] == old(hpOf(recv).a[j]) && hpOf(recv).a[j] == old(hpOf(recv).a[i])
+//@   ensures forall k int :: 0 <= k && k < len(hpOf(recv).a) && k != i && k != j ==> hpOf(recv).a[k] == old(hpOf(recv).a[k])
+//@   ensures (hpOf(recv).setIndex != nil ==> distinct(*hpOf(recv))) && idxOK(*hpOf(recv))
+//@   modifies elems(hpOf(recv).a)
+//@   writes G$reported
+//@ func iface container/heap.Interface.Push
+//@   requires typeis(recv, "*pqHeap") && hpOf(recv) != nil
+//@   requires (hpOf(recv).setIndex != nil ==> distinct(*hpOf(recv)) && (forall k int :: 0 <= k && k < len(hpOf(recv).a) ==> hpOf(recv).a[k] != x)) && idxOK(*hpOf(recv))
+//@   ensures len(hpOf(recv).a) == old(len(hpOf(recv).a)) + 1 && hpOf(recv).a[len(hpOf(recv).a)-1] == x
+//@   ensures forall k int :: 0 <= k && k < old(len(hpOf(recv).a)) ==> hpOf(recv).a[k] == old(hpOf(recv).a[k])
+//@   ensures hpOf(recv).less == old(hpOf(recv).less) && hpOf(recv).setIndex == old(hpOf(recv).setIndex)
+//@   ensures (hpOf(recv).setIndex != nil ==> distinct(*hpOf(recv))) && idxOK(*hpOf(recv))
+//@   ensures ref(hpOf(recv).a) == old(ref(hpOf(recv).a)) || fresh(hpOf(recv).a)
+//@   modifies hpOf(recv).a, elems(hpOf(recv).a)
+//@   writes G$reported
+//@ func iface container/heap.Interface.Pop
+//@   requires typeis(recv, "*pqHeap") && hpOf(recv) != nil && len(hpOf(recv).a) > 0
+//@   requires (hpOf(recv).setIndex != nil ==> distinct(*hpOf(recv))) && idxOK(*hpOf(recv))
+//@   ensures result == old(hpOf(recv).a[len(hpOf(recv).a)-1]) && len(hpOf(recv).a) == old(len(hpOf(recv).a)) - 1
+//@   ensures forall k int :: 0 <= k && k < len(hpOf(recv).a) ==> hpOf(recv).a[k] == old(hpOf(recv).a[k])
+//@   ensures reported == old(reported)
+//@   ensures hpOf(recv).less == old(hpOf(recv).less) && hpOf(recv).setIndex == old(hpOf(recv).setIndex)
+//@   ensures (hpOf(recv).setIndex != nil ==> distinct(*hpOf(recv))) && idxOK(*hpOf(recv))
+//@   ensures ref(hpOf(recv).a) == old(ref(hpOf(recv).a))
+//@   modifies hpOf(recv).a
+//@
+//@ // Heap order over the first n elements, possibly with one damaged position.
+//@ spec heapOKn(h pqHeap, n int) bool = forall k int :: 1 <= k && k < n ==> okAt(h, k)
+//@ // heapOK: under a strict weak order the parent of every element is not
+//@ // greater than it
+//@ spec heapOK(h pqHeap) bool = swo(h.less) ==> heapOKn(h, len(h.a))
+//@ // In a heap-ordered array the root is minimal. (A fact about the
+//@ // specification functions only, by induction on k along the parent chain
+//@ // k, (k-1)/2, ..., 0 using negative transitivity; SMT solvers do not do
+//@ // induction, so it is ASSUMED and listed as such; hand proof in DESIGN.md.)
+//@ lemma heap-root-min: forall h pqHeap, n int :: swo(h.less) && heapOKn(h, n) && n <= len(h.a) ==> (forall k int :: 0 <= k && k < n ==> !lessOf(h.less, h.a[k], h.a[0]))
+//@ spec heapExceptN(h pqHeap, j int, n int) bool = forall k int :: 1 <= k && k < n && k != j ==> okAt(h, k)
+//@ spec kidsOKn(h pqHeap, j int, n int) bool = forall c int :: 1 <= c && c < n && (c-1)/2 == j && j >= 1 ==> !lessOf(h.less, h.a[c], h.a[(j-1)/2])
+//@ spec exceptDownN(h pqHeap, i int, n int) bool = forall k int :: 1 <= k && k < n && (k-1)/2 != i && k != i ==> okAt(h, k)
+//@
+//@ // up: sift the element at j towards the root, within the first m elements.
+//@ // If before the call the heap order holds on [0,m) except possibly between j
+//@ // and its parent, and j's children are not less than j's parent, then
+//@ // afterwards it holds on all of [0,m). Always: the array is permuted only.
+//@ func container/heap.up
+//@   ghostparam m int
+//@   requires typeis(h, "*pqHeap") && hpOf(h) != nil && okRep(*hpOf(h)) && 0 <= j && j < m && m <= len(hpOf(h).a)
+//@   ensures okRep(*hpOf(h)) && hpOf(h).less == old(hpOf(h).less) && hpOf(h).setIndex == old(hpOf(h).setIndex) && hpOf(h).a == old(hpOf(h).a)
+//@   ensures forall k int :: m <= k && k < len(hpOf(h).a) ==> hpOf(h).a[k] == old(hpOf(h).a[k])
+//@   ensures [#order] swo(hpOf(h).less) && old(heapExceptN(*hpOf(h), j, m) && kidsOKn(*hpOf(h), j, m)) ==> heapOKn(*hpOf(h), m)
+//@   ensures [#fwd] forall k int :: 0 <= k && k < m ==> (exists q int :: 0 <= q && q < m && hpOf(h).a[k] == old(hpOf(h).a[q]))
+//@   ensures [#bwd] forall q int :: 0 <= q && q < m ==> (exists k int :: 0 <= k && k < m && hpOf(h).a[k] == old(hpOf(h).a[q]))
+//@   modifies elems(hpOf(h).a)
+//@   writes G$reported
+//@   loop 1 invariant hpOf(h) != nil && okRep(*hpOf(h)) && 0 <= j && j < m && m <= len(hpOf(h).a) && hpOf(h).less == old(hpOf(h).less) && hpOf(h).setIndex == old(hpOf(h).setIndex) && hpOf(h).a == old(hpOf(h).a)
+//@   loop 1 invariant forall k int :: m <= k && k < len(hpOf(h).a) ==> hpOf(h).a[k] == old(hpOf(h).a[k])
+//@   loop 1 invariant [#order] swo(hpOf(h).less) && old(heapExceptN(*hpOf(h), j, m) && kidsOKn(*hpOf(h), j, m)) ==> heapExceptN(*hpOf(h), j, m) && kidsOKn(*hpOf(h), j, m)
+//@   loop 1 invariant [#fwd] forall k int :: 0 <= k && k < m ==> (exists q int :: 0 <= q && q < m && hpOf(h).a[k] == old(hpOf(h).a[q]))
+//@   loop 1 invariant [#bwd] forall q int :: 0 <= q && q < m ==> (exists k int :: 0 <= k && k < m && hpOf(h).a[k] == old(hpOf(h).a[q]))
+//@   loop 1 decreases j
+//@   props C20
+//@
+//@ // down: sift the element at i0 towards the leaves, within the first n
+//@ // elements. If before the call the heap order holds on [0,n) on every edge
+//@ // not incident to i0, and i0's children are not less than i0's parent,
+//@ // then afterwards it holds on every edge of [0,n) except possibly the one
+//@ // above i0 - and on that one too if the element moved (result true). If the
+//@ // element did not move the array is unchanged.
+//@ func container/heap.down
+//@   requires typeis(h, "*pqHeap") && hpOf(h) != nil && okRep(*hpOf(h)) && 0 <= i0 && 0 <= n && n <= len(hpOf(h).a)
+//@   ensures okRep(*hpOf(h)) && hpOf(h).less == old(hpOf(h).less) && hpOf(h).setIndex == old(hpOf(h).setIndex) && hpOf(h).a == old(hpOf(h).a)
+//@   ensures forall k int :: n <= k && k < len(hpOf(h).a) ==> hpOf(h).a[k] == old(hpOf(h).a[k])
+//@   ensures !result ==> (forall k int :: 0 <= k && k < len(hpOf(h).a) ==> hpOf(h).a[k] == old(hpOf(h).a[k]))
+//@   ensures [#order] swo(hpOf(h).less) && old(exceptDownN(*hpOf(h), i0, n) && kidsOKn(*hpOf(h), i0, n)) ==> heapExceptN(*hpOf(h), i0, n) && (result ==> heapOKn(*hpOf(h), n))
+//@   ensures [#fwd] forall k int :: 0 <= k && k < n ==> (exists q int :: 0 <= q && q < n && hpOf(h).a[k] == old(hpOf(h).a[q]))
+//@   ensures [#bwd] forall q int :: 0 <= q && q < n ==> (exists k int :: 0 <= k && k < n && hpOf(h).a[k] == old(hpOf(h).a[q]))
+//@   modifies elems(hpOf(h).a)
+//@   writes G$reported
+//@   loop 1 invariant hpOf(h) != nil && okRep(*hpOf(h)) && i0 <= i && 0 <= n && n <= len(hpOf(h).a) && hpOf(h).less == old(hpOf(h).less) && hpOf(h).setIndex == old(hpOf(h).setIndex) && hpOf(h).a == old(hpOf(h).a)
+//@   loop 1 invariant forall k int :: n <= k && k < len(hpOf(h).a) ==> hpOf(h).a[k] == old(hpOf(h).a[k])
+//@   loop 1 invariant i == i0 ==> (forall k int :: 0 <= k && k < len(hpOf(h).a) ==> hpOf(h).a[k] == old(hpOf(h).a[k]))
+//@   loop 1 invariant [#order] swo(hpOf(h).less) && old(exceptDownN(*hpOf(h), i0, n) && kidsOKn(*hpOf(h), i0, n)) ==> exceptDownN(*hpOf(h), i, n) && kidsOKn(*hpOf(h), i, n) && (i > i0 && i < n ==> okAt(*hpOf(h), i)) && (i > i0 && i0 >= 1 && i0 < n ==> okAt(*hpOf(h), i0))
+//@   loop 1 invariant [#fwd] forall k int :: 0 <= k && k < n ==> (exists q int :: 0 <= q && q < n && hpOf(h).a[k] == old(hpOf(h).a[q]))
+//@   loop 1 invariant [#bwd] forall q int :: 0 <= q && q < n ==> (exists k int :: 0 <= k && k < n && hpOf(h).a[k] == old(hpOf(h).a[q]))
+//@   loop 1 decreases n - i
+//@   props C20
+//@
+//@ // heap.Push/Pop/Fix/Remove: verified against up/down and the five methods.
 //@ func container/heap.Push
-//@   trusted
 //@   requires typeis(h, "*pqHeap") && hpOf(h) != nil && wfHeap(*hpOf(h)) && (hpOf(h).setIndex != nil ==> !member(*hpOf(h), x))
 //@   ensures len(hpOf(h).a) == old(len(hpOf(h).a)) + 1
-//@   ensures wfHeap(*hpOf(h)) && member(*hpOf(h), x)
-//@   ensures forall y any :: old(member(*hpOf(h), y)) ==> member(*hpOf(h), y)
-//@   ensures forall y any :: member(*hpOf(h), y) ==> (y == x || old(member(*hpOf(h), y)))
-//@   ensures forall k int :: 0 <= k && k < len(hpOf(h).a) ==> (hpOf(h).a[k] == x || (exists j int :: 0 <= j && j < old(len(hpOf(h).a)) && hpOf(h).a[k] == old(hpOf(h).a[j])))
+//@   ensures okRep(*hpOf(h))
+//@   ensures [#order] heapOK(*hpOf(h))
+//@   ensures [#bwd] member(*hpOf(h), x)
+//@   ensures [#bwd] forall y any :: old(member(*hpOf(h), y)) ==> member(*hpOf(h), y)
+//@   ensures [#fwd] forall y any :: member(*hpOf(h), y) ==> (y == x || old(member(*hpOf(h), y)))
+//@   ensures [#fwd] forall k int :: 0 <= k && k < len(hpOf(h).a) ==> (hpOf(h).a[k] == x || (exists j int :: 0 <= j && j < old(len(hpOf(h).a)) && hpOf(h).a[k] == old(hpOf(h).a[j])))
 //@   ensures hpOf(h).less == old(hpOf(h).less) && hpOf(h).setIndex == old(hpOf(h).setIndex)
 //@   ensures ref(hpOf(h).a) == old(ref(hpOf(h).a)) || fresh(hpOf(h).a)
+//@   callghost up m = len(hpOf(h).a)
 //@   modifies hpOf(h).a, elems(hpOf(h).a)
 //@   writes G$reported
+//@   props C20
 //@
 //@ func container/heap.Pop
-//@   trusted
+//@   // instance of heap-root-min for the heap as it is on entry
+//@   assumes swo(hpOf(h).less) && heapOKn(*hpOf(h), len(hpOf(h).a)) ==> (forall k int :: 0 <= k && k < len(hpOf(h).a) ==> !lessOf(hpOf(h).less, hpOf(h).a[k], hpOf(h).a[0]))
 //@   requires typeis(h, "*pqHeap") && hpOf(h) != nil && wfHeap(*hpOf(h)) && len(hpOf(h).a) > 0
 //@   ensures len(hpOf(h).a) == old(len(hpOf(h).a)) - 1
-//@   ensures wfHeap(*hpOf(h)) && old(member(*hpOf(h), result)) && (hpOf(h).setIndex != nil ==> !member(*hpOf(h), result))
-//@   ensures forall y any :: old(member(*hpOf(h), y)) && y != result ==> member(*hpOf(h), y)
-//@   ensures forall y any :: member(*hpOf(h), y) ==> old(member(*hpOf(h), y))
-//@   ensures (forall k int :: 0 <= k && k < len(hpOf(h).a) ==> (exists j int :: 0 <= j && j < old(len(hpOf(h).a)) && hpOf(h).a[k] == old(hpOf(h).a[j]))) && (exists j int :: 0 <= j && j < old(len(hpOf(h).a)) && result == old(hpOf(h).a[j]))
-//@   ensures forall y any :: old(member(*hpOf(h), y)) ==> !lessOf(hpOf(h).less, y, result)
+//@   ensures okRep(*hpOf(h)) && result == old(hpOf(h).a[0])
+//@   ensures [#order] heapOK(*hpOf(h))
+//@   ensures hpOf(h).setIndex != nil ==> !member(*hpOf(h), result)
+//@   ensures [#bwd] forall y any :: old(member(*hpOf(h), y)) && y != result ==> member(*hpOf(h), y)
+//@   ensures [#fwd] forall y any :: member(*hpOf(h), y) ==> old(member(*hpOf(h), y))
+//@   ensures [#fwd] forall k int :: 0 <= k && k < len(hpOf(h).a) ==> (exists j int :: 0 <= j && j < old(len(hpOf(h).a)) && hpOf(h).a[k] == old(hpOf(h).a[j]))
+//@   ensures [#min] swo(hpOf(h).less) ==> (forall y any :: old(member(*hpOf(h), y)) ==> !lessOf(hpOf(h).less, y, result))
 //@   ensures hpOf(h).less == old(hpOf(h).less) && hpOf(h).setIndex == old(hpOf(h).setIndex)
 //@   ensures ref(hpOf(h).a) == old(ref(hpOf(h).a))
 //@   modifies hpOf(h).a, elems(hpOf(h).a)
 //@   writes G$reported
+//@   props C20
 //@
 //@ func container/heap.Fix
-//@   trusted
-//@   requires typeis(h, "*pqHeap") && hpOf(h) != nil && hpOf(h).less != nil && (hpOf(h).setIndex != nil ==> distinct(*hpOf(h))) && idxOK(*hpOf(h))
+//@   requires typeis(h, "*pqHeap") && hpOf(h) != nil && okRep(*hpOf(h))
 //@   requires 0 <= i && i < len(hpOf(h).a)
-//@   ensures len(hpOf(h).a) == old(len(hpOf(h).a)) && (hpOf(h).setIndex != nil ==> distinct(*hpOf(h))) && idxOK(*hpOf(h))
-//@   ensures forall y any :: old(member(*hpOf(h), y)) <==> member(*hpOf(h), y)
+//@   ensures len(hpOf(h).a) == old(len(hpOf(h).a)) && okRep(*hpOf(h))
+//@   ensures [#order] swo(hpOf(h).less) && old(exceptDownN(*hpOf(h), i, len(hpOf(h).a)) && heapExceptN(*hpOf(h), i, len(hpOf(h).a)) && kidsOKn(*hpOf(h), i, len(hpOf(h).a))) ==> heapOKn(*hpOf(h), len(hpOf(h).a))
+//@   ensures [#fwd] forall y any :: member(*hpOf(h), y) ==> old(member(*hpOf(h), y))
+//@   ensures [#bwd] forall y any :: old(member(*hpOf(h), y)) ==> member(*hpOf(h), y)
 //@   ensures hpOf(h).less == old(hpOf(h).less) && hpOf(h).setIndex == old(hpOf(h).setIndex)
+//@   callghost up m = len(hpOf(h).a)
 //@   modifies elems(hpOf(h).a)
 //@   writes G$reported
+//@   props C20
 //@
 //@ func container/heap.Remove
-//@   trusted
 //@   requires typeis(h, "*pqHeap") && hpOf(h) != nil && wfHeap(*hpOf(h))
 //@   requires 0 <= i && i < len(hpOf(h).a)
 //@   ensures len(hpOf(h).a) == old(len(hpOf(h).a)) - 1
-//@   ensures result == old(hpOf(h).a[i])
-//@   ensures wfHeap(*hpOf(h)) && (hpOf(h).setIndex != nil ==> !member(*hpOf(h), result))
-//@   ensures forall y any :: old(member(*hpOf(h), y)) && y != result ==> member(*hpOf(h), y)
-//@   ensures forall y any :: member(*hpOf(h), y) ==> old(member(*hpOf(h), y))
+//@   ensures result == old(hpOf(h).a[i]) && okRep(*hpOf(h))
+//@   ensures [#order] heapOK(*hpOf(h))
+//@   ensures hpOf(h).setIndex != nil ==> !member(*hpOf(h), result)
+//@   ensures [#bwd] forall y any :: old(member(*hpOf(h), y)) && y != result ==> member(*hpOf(h), y)
+//@   ensures [#fwd] forall y any :: member(*hpOf(h), y) ==> old(member(*hpOf(h), y))
 //@   ensures hpOf(h).less == old(hpOf(h).less) && hpOf(h).setIndex == old(hpOf(h).setIndex)
+//@   callghost up m = len(hpOf(h).a) - 1
 //@   modifies hpOf(h).a, elems(hpOf(h).a)
 //@   writes G$reported
+//@   props C20
 //@
 //@ // ---- Queue: thin wrappers; their contracts re-export the assumed ones.
 //@ func (*Queue).Push
@@ -172,7 +287,7 @@ package pq
 //@   ensures forall y any :: member(pq.heap, y) ==> old(member(pq.heap, y))
 //@   ensures (forall k int :: 0 <= k && k < len(pq.heap.a) ==> (exists j int :: 0 <= j && j < old(len(pq.heap.a)) && pq.heap.a[k] == old(pq.heap.a[j]))) && (exists j int :: 0 <= j && j < old(len(pq.heap.a)) && result == old(pq.heap.a[j]))
 //@   ensures pq.heap.less == old(pq.heap.less) && pq.heap.setIndex == old(pq.heap.setIndex)
-//@   ensures forall y any :: old(member(pq.heap, y)) ==> !lessOf(pq.heap.less, y, result)
+//@   ensures swo(pq.heap.less) ==> (forall y any :: old(member(pq.heap, y)) ==> !lessOf(pq.heap.less, y, result))
 //@   ensures ref(pq.heap.a) == old(ref(pq.heap.a))
 //@   modifies pq.heap.a, elems(pq.heap.a)
 //@   props C20
